@@ -29,29 +29,219 @@ def _exact_or_float(case):
 MAX_STEPS = 600
 
 
-def _args_value(a):
+# ---- argument values ------------------------------------------------------------------------------
+# The rule Timer.__init__ implements (and coq/Elem/TimerArgs.v states): args is None -> no positional argument;
+# an instance of list or tuple (subclasses included) -> its elements; ANYTHING else -> exactly one positional
+# argument, the object itself (a str, bytes, a dict, a set, a range, a generator, 0, '', False ...).
+# A case describes the object by a JSON "spec":  ["int", n] ["bool", b] ["float", repr] ["frac", "n/d"] ["complex", re, im]
+# ["str", s] ["bytes", hex] ["bytearray", hex] ["none"] ["list", [specs]] ["tuple", [specs]] ["namedtuple", [specs]]
+# ["listsub", [specs]] ["deque", [specs]] ["set", [specs]] ["frozenset", [specs]] ["dict", [[kspec, vspec]..]]
+# ["range", n] ["gen", n] ["object"].   Old case format: kind scalar/list/tuple with plain ints in "v".
+LISTLIKE = ("list", "tuple", "namedtuple", "listsub")       # instances of list or tuple
+
+
+class _LSub(list):
+    """a list subclass"""
+
+
+class _Plain:
+    """an object with nothing special"""
+
+
+_NT = {}
+
+
+def _namedtuple(n):
+    import collections
+    if n not in _NT:
+        _NT[n] = collections.namedtuple("NT%d" % n, ["f%d" % i for i in range(n)])
+    return _NT[n]
+
+
+def _build(spec):
+    import collections
+    k = spec[0]
+    if k == "int":
+        return int(spec[1])
+    if k == "bool":
+        return bool(spec[1])
+    if k == "float":
+        return float(spec[1])
+    if k == "frac":
+        return Fraction(spec[1])
+    if k == "complex":
+        return complex(float(spec[1]), float(spec[2]))
+    if k == "str":
+        return spec[1]
+    if k == "bytes":
+        return bytes.fromhex(spec[1])
+    if k == "bytearray":
+        return bytearray.fromhex(spec[1])
+    if k == "none":
+        return None
+    if k == "list":
+        return [_build(x) for x in spec[1]]
+    if k == "tuple":
+        return tuple(_build(x) for x in spec[1])
+    if k == "namedtuple":
+        return _namedtuple(len(spec[1]))(*[_build(x) for x in spec[1]])
+    if k == "listsub":
+        return _LSub(_build(x) for x in spec[1])
+    if k == "deque":
+        return collections.deque(_build(x) for x in spec[1])
+    if k == "set":
+        return {_build(x) for x in spec[1]}
+    if k == "frozenset":
+        return frozenset(_build(x) for x in spec[1])
+    if k == "dict":
+        return {_build(a): _build(b) for a, b in spec[1]}
+    if k == "range":
+        return range(int(spec[1]))
+    if k == "gen":
+        return (i for i in range(int(spec[1])))
+    if k == "object":
+        return _Plain()
+    raise ValueError(spec)
+
+
+def _canon(x):
+    """type-tagged JSON image of a Python object (1, True and 1.0 differ; a list and a tuple differ)"""
+    import json
+    import collections
+    tn = type(x).__name__
+    if x is None or isinstance(x, (bool, str)):
+        return [tn, x]
+    if isinstance(x, int):
+        return [tn, int(x)]
+    if isinstance(x, float):
+        return [tn, x.hex()]
+    if isinstance(x, complex):
+        return [tn, [x.real.hex(), x.imag.hex()]]
+    if isinstance(x, Fraction):
+        return [tn, f"{x.numerator}/{x.denominator}"]
+    if isinstance(x, (bytes, bytearray)):
+        return [tn, x.hex()]
+    if isinstance(x, (list, tuple, collections.deque)):
+        return [tn, [_canon(e) for e in x]]
+    if isinstance(x, (set, frozenset)):
+        return [tn, sorted((_canon(e) for e in x), key=json.dumps)]
+    if isinstance(x, dict):
+        return [tn, sorted(([_canon(a), _canon(b)] for a, b in x.items()), key=json.dumps)]
+    if isinstance(x, range):
+        return [tn, [x.start, x.stop, x.step]]
+    return [tn, None]
+
+
+def _args_spec(a):
+    """the spec of the object given as `args` (None: args not given)"""
     k = a["kind"]
     if k == "none":
         return None
+    if k == "obj":
+        return a["spec"]
     if k == "scalar":
-        return a["v"]
-    if k == "tuple":
-        return tuple(a["v"])
-    return list(a["v"])
+        return ["int", a["v"]]
+    return [k, [["int", x] for x in a["v"]]]
 
 
-def _args_expected(a):
-    k = a["kind"]
-    return [] if k == "none" else ([a["v"]] if k == "scalar" else list(a["v"]))
+def _kwargs_spec(case):
+    kw = case.get("kwargs")
+    if kw is None:
+        return None
+    return {k: (v if isinstance(v, list) else ["int", v]) for k, v in kw.items()}
 
 
-def _args_coq(a):
-    k = a["kind"]
-    if k == "none":
+def _expected_specs(spec):
+    """THE RULE, on specs: the positional arguments the callback must receive"""
+    if spec is None:
+        return []
+    if spec[0] in LISTLIKE:
+        return list(spec[1])
+    return [spec]
+
+
+def _args_class(a):
+    """histogram key"""
+    spec = _args_spec(a)
+    if spec is None:
+        return "none"
+    if spec[0] in LISTLIKE:
+        return spec[0] + ("(nested)" if any(x[0] in ("list", "tuple") for x in spec[1]) else "") + ":%d" % min(len(spec[1]), 3)
+    if spec[0] in ("str", "bytes", "bytearray"):
+        n = len(spec[1]) if spec[0] == "str" else len(spec[1]) // 2
+        return "scalar-%s:len%s" % (spec[0], n if n < 2 else "2+")
+    falsy = spec in (["int", 0], ["bool", False], ["float", "0.0"], ["frac", "0/1"]) or (spec[0] in ("dict", "set", "frozenset", "deque") and not spec[1]) or spec[1:] == [0]
+    return "scalar-" + spec[0] + ("(falsy)" if falsy else "")
+
+
+def _pure_int(spec):
+    return spec[0] == "int"
+
+
+def _coq_codes(bs):
+    return cf.lst([cf.z(b) for b in bs])
+
+
+def _canon_coq(c):
+    """canonical image -> term of type pyval (coq/Elem/TimerArgs.v)"""
+    tn, v = c
+    if tn == "NoneType":
+        return "VNone"
+    if tn == "bool":
+        return f"(VBool {cf.b(v)})"
+    if tn == "int":
+        return f"(VInt {cf.z(v)})"
+    if tn == "float":
+        return f"(VFloat {cf.q(float.fromhex(v))})"
+    if tn == "Fraction":
+        return f"(VFrac {cf.q(v)})"
+    if tn == "str":
+        return f"(VStr {_coq_codes([ord(ch) for ch in v])})"
+    if tn == "bytes":
+        return f"(VBytes {_coq_codes(bytes.fromhex(v))})"
+    if tn == "bytearray":
+        return f"(VByteArray {_coq_codes(bytes.fromhex(v))})"
+    seqs = {"list": "VList", "tuple": "VTuple", "_LSub": "VListSub", "deque": "VDeque", "set": "VSet", "frozenset": "VFrozenSet"}
+    if tn in seqs or tn.startswith("NT"):
+        con = seqs.get(tn, "VNamedTuple")
+        return f"({con} {cf.lst([_canon_coq(e) for e in v])})"
+    if tn == "dict":
+        return f"(VDict {cf.lst([cf.pair(_canon_coq(a), _canon_coq(b)) for a, b in v])})"
+    if tn == "range":
+        return f"(VRange {cf.z(v[0])} {cf.z(v[1])} {cf.z(v[2])})"
+    if tn == "generator":
+        return "VGen"
+    return "(VOther 0)"
+
+
+def _args_coq(case):
+    """the argument of timer0: the automaton treats arguments as opaque tokens; a token is the integer itself when every
+    argument is an int, otherwise the position of the argument in the normalised list (the normalisation itself is
+    compared separately, against py_norm_args)"""
+    spec = _args_spec(case["args"])
+    if spec is None:
         return "ANone"
-    if k == "scalar":
-        return f"(AScalar {cf.z(a['v'])})"
-    return f"(AList {cf.lst([cf.z(x) for x in a['v']])})"
+    exp = _expected_specs(spec)
+    if all(_pure_int(x) for x in exp):
+        vals = [x[1] for x in exp]
+    else:
+        vals = list(range(len(exp)))
+    if spec[0] in LISTLIKE:
+        return f"(AList {cf.lst([cf.z(x) for x in vals])})"
+    return f"(AScalar {cf.z(vals[0])})"
+
+
+def _fire_tokens(case, f):
+    """the arguments one callback invocation received, as the model's tokens (-1: not the expected argument)"""
+    exp = [_canon(_build(x)) for x in _expected_specs(_args_spec(case["args"]))] if case["args"]["kind"] != "none" else []
+    ints = all(c[0] == "int" for c in exp)
+    out = []
+    for i, c in enumerate(f["args"]):
+        if i < len(exp) and c == exp[i]:
+            out.append(c[1] if ints else i)
+        else:
+            out.append(c[1] if (ints and c[0] == "int") else -1)
+    return out
 
 
 def _op_coq_call(op):
@@ -108,14 +298,17 @@ def extracted_timer_run(repo):
 
 class C19(Prop):
     id = "C19"
-    props_file = ["Props/C19.v", "Props/C19_Bridge.v", "Props/C19_BridgeRun.v", "Props/C19_Examples.v"]
-    coq_imports = ["From ONL Require Import Base.Cmp Elem.Timer."]
+    props_file = ["Props/C19.v", "Props/C19_Bridge.v", "Props/C19_BridgeRun.v", "Props/C19_Examples.v", "Props/C19_Args.v"]
+    coq_imports = ["From ONL Require Import Base.Cmp Elem.Timer Elem.TimerArgs."]
     n_quick = 600
     n_thorough = 12000
     shard = 150
     case_timeout = 20
-    nontrivial_rule = ("one Timer (one-shot or auto-restart, timeout and creation instant on a dyadic lattice, args None / scalar / "
-                       "list / tuple, optional kwargs) driven by 1-3 foreign processes whose stop()/restart(tau) calls are placed by a "
+    nontrivial_rule = ("one Timer (one-shot or auto-restart, timeout and creation instant on a dyadic lattice, args of every shape: None, scalars "
+                       "(ints incl. 0 and 2**70, bools, floats, Fractions, complex, str and bytes of length 0 / 1 / several, bytearray, "
+                       "a plain object), containers that are not list/tuple (dict, set, frozenset, range, deque, a generator object; "
+                       "empty and non-empty), lists / tuples / a namedtuple / a list subclass with 0-3 elements incl. nested lists and "
+                       "None elements; kwargs absent, {}, or with falsy values) driven by 1-3 foreign processes whose stop()/restart(tau) calls are placed by a "
                        "predictor before, exactly at and after the expiries (drivers created before or after the Timer, 0-3 zero-delay "
                        "yields, so a call at the expiry instant lands before or after the timer's Timeout event), calls made directly "
                        "after construction (Initialize still pending), several calls per instant, and a scripted callback that calls "
@@ -165,14 +358,23 @@ class C19(Prop):
         t0 = rng.choice([F(0), F(1, 10), F(7, 10), F(33, 10)] if fl else [F(0), F(0), F(1, 2), F(1), F(3)])
         tmo = rng.choice(taus)
         auto = rng.random() < 0.5
-        ak = rng.choice(["none", "scalar", "scalar", "list", "list", "tuple"])
+        ak = rng.choice(["none", "scalar", "scalar", "list", "list", "tuple", "obj", "obj", "obj", "obj"])
         if ak == "none":
             args = {"kind": "none"}
         elif ak == "scalar":
             args = {"kind": "scalar", "v": rng.randint(-3, 40)}
+        elif ak == "obj":
+            args = {"kind": "obj", "spec": self._rand_args_spec(rng)}
         else:
             args = {"kind": ak, "v": [rng.randint(-3, 40) for _ in range(rng.randint(0, 3))]}
-        kwargs = {"k": rng.randint(0, 9)} if rng.random() < 0.2 else None
+        r = rng.random()
+        if r < 0.75:
+            kwargs = None
+        elif r < 0.85:
+            kwargs = {"k": rng.randint(0, 9)}
+        else:       # falsy values, several keys, the empty dict
+            kwargs = rng.choice([{}, {"k": ["int", 0]}, {"k": ["str", ""]}, {"k": ["none"]}, {"k": ["bool", False], "j": ["list", []]},
+                                 {"k": ["float", "0.0"], "j": ["str", "x"]}, {"k": ["tuple", []]}, {"k": ["dict", []]}])
 
         def rand_op():
             return ["stop"] if rng.random() < 0.22 else ["restart", cf.qjson(rng.choice(taus))]
@@ -249,6 +451,46 @@ class C19(Prop):
                 "pre": rng.random() < 0.5, "immediate": immediate, "drivers": drivers, "cb": cb,
                 "horizon": cf.qjson(min(horizon, t0 + 40))}
 
+    @staticmethod
+    def _rand_leaf(rng):
+        return rng.choice([["int", 0], ["int", 1], ["int", rng.randint(-3, 40)], ["int", 2 ** 70], ["bool", False], ["bool", True],
+                           ["float", "0.0"], ["float", "0.25"], ["float", "-1.5"], ["float", "1e+300"], ["frac", "0/1"], ["frac", "7/3"],
+                           ["complex", "0.0", "1.0"], ["str", ""], ["str", "x"], ["str", "seg-512"], ["str", "flow A"],
+                           ["str", "\u00e9\u4e2d"], ["bytes", ""], ["bytes", "00"], ["bytes", "010203"], ["bytearray", "0a0b"],
+                           ["none"], ["object"]])
+
+    def _rand_args_spec(self, rng):
+        """the object given as `args`: scalars of every kind (falsy ones, strings and bytes of length 0, 1, several),
+        containers that are NOT list/tuple (one argument), list/tuple and their subclasses (the argument list), nesting"""
+        r = rng.random()
+        leaf = lambda: self._rand_leaf(rng)          # noqa: E731
+        if r < 0.45:
+            x = leaf()
+            while x[0] == "none":                    # args=None means: no arguments (kind "none")
+                x = leaf()
+            return x
+        if r < 0.62:                                 # not list / tuple: ONE argument
+            k = rng.choice(["dict", "set", "frozenset", "range", "gen", "deque", "dict", "range"])
+            if k == "dict":
+                return ["dict", [[["str", "a"], leaf()], [["int", 1], ["list", [leaf()]]]][:rng.randint(0, 2)]]
+            if k in ("range", "gen"):
+                return [k, rng.choice([0, 1, 3])]
+            if k == "deque":
+                return ["deque", [leaf() for _ in range(rng.randint(0, 3))]]
+            return [k, [x for x in (["int", 1], ["str", "s"], ["int", 5])][:rng.randint(0, 3)]]
+        k = rng.choice(["list", "tuple", "namedtuple", "listsub", "list", "tuple"])
+        n = rng.choice([0, 1, 1, 2, 3])
+        elems = []
+        for _ in range(n):
+            q = rng.random()
+            if q < 0.6:
+                elems.append(leaf())
+            elif q < 0.8:
+                elems.append([rng.choice(["list", "tuple"]), [leaf() for _ in range(rng.randint(0, 2))]])     # nested
+            else:
+                elems.append(rng.choice([["str", "ab"], ["dict", []], ["set", []], ["range", 2], ["list", [["list", []]]]]))
+        return [k, elems]
+
     # ---- implementation -------------------------------------------------------------------------
     def run_impl(self, case):
         from onl.sim import Environment
@@ -258,7 +500,7 @@ class C19(Prop):
         t0 = T(case["t0"])
         env = Environment(initial_time=t0)
         log = []
-        st = {"timer": None, "procs": [], "nfire": 0, "fires": None, "raised": None}
+        st = {"timer": None, "procs": [], "nfire": 0, "fires": None, "raised": None, "given": None, "self_args": None}
 
         def track():
             tm = st["timer"]
@@ -281,7 +523,17 @@ class C19(Prop):
         def callback(*a, **kw):
             k = st["nfire"]
             st["nfire"] += 1
-            rec = {"t": ec.qs(env.now), "args": list(a), "kwargs": dict(kw), "calls": [], "self_is_cur": env.active_process is st["timer"].proc}
+            given = st["given"]
+            ident = []
+            for i, x in enumerate(a):
+                try:
+                    el = (x is given[i]) if isinstance(given, (list, tuple)) and i < len(given) else False
+                except Exception:
+                    el = False
+                ident.append([x is given, bool(el)])
+            rec = {"t": ec.qs(env.now), "args": [_canon(x) for x in a], "ident": ident,
+                   "kwargs": {k: _canon(v) for k, v in kw.items()}, "calls": [],
+                   "self_is_cur": env.active_process is st["timer"].proc}
             if st["fires"] is not None:
                 st["fires"].append(rec)
             else:
@@ -313,13 +565,15 @@ class C19(Prop):
 
         def make_timer():
             kw = {}
-            if case.get("kwargs") is not None:
-                kw["kwargs"] = dict(case["kwargs"])
-            a = _args_value(case["args"])
-            if a is not None:
-                kw["args"] = a
+            ks = _kwargs_spec(case)
+            if ks is not None:
+                kw["kwargs"] = {k: _build(v) for k, v in ks.items()}
+            spec = _args_spec(case["args"])
+            if spec is not None:
+                st["given"] = kw["args"] = _build(spec)
             st["timer"] = Timer(env, T(case["timeout"]), callback, auto_restart=bool(case["auto"]), **kw)
             track()
+            st["self_args"] = _canon(st["timer"].args)
             log.append(["new", sample()])
             for op in case["immediate"]:
                 if not foreign(op):
@@ -385,7 +639,7 @@ class C19(Prop):
             elif fires:
                 log.append(["stray-step", fires])
         return {"log": log, "raised": st["raised"], "exhausted": not env._queue, "end_time": end_time, "steps": n,
-                "capped": n >= MAX_STEPS}
+                "capped": n >= MAX_STEPS, "self_args": st["self_args"]}
 
     # ---- log -> model actions -------------------------------------------------------------------
     @staticmethod
@@ -418,7 +672,7 @@ class C19(Prop):
                         return None, "two callbacks in one kernel step"
                     calls = fires[0]["calls"] if fires else []
                     a = f"TProcTimeout {cf.nat(i)} {cf.lst([_op_coq_call(c) for c in calls])}"
-                    fs = cf.lst([f"({cf.q(f['t'])}, {cf.lst([cf.z(x) for x in f['args']])})" for f in fires])
+                    fs = cf.lst([f"({cf.q(f['t'])}, {cf.lst([cf.z(x) for x in _fire_tokens(case, f)])})" for f in fires])
                 else:
                     return None, f"unexpected kernel step {e[1]}"
                 if what != "tmo" and fires:
@@ -441,20 +695,25 @@ class C19(Prop):
         return out, None
 
     def _init_term(self, case):
-        return f"(timer0 fixed {cf.q(case['t0'])} {cf.q(case['timeout'])} {cf.b(case['auto'])} {_args_coq(case['args'])})"
+        return f"(timer0 fixed {cf.q(case['t0'])} {cf.q(case['timeout'])} {cf.b(case['auto'])} {_args_coq(case)})"
 
     def agree_term(self, case, obs):
         if case.get("float"):
             return None        # binary64 rounding is outside the model (Q); these cases are judged by the monitor only
         if obs["raised"] or obs.get("capped"):
             return "false"
-        if any(isinstance(x, bool) or not isinstance(x, int) for x in _args_expected(case["args"])):
-            return None
         acts, err = self._actions(case, obs)
         if acts is None:
             return f"false (* {err} *)"
+        # the normalisation of `args` in __init__: self.args (observed right after construction) against py_norm_args
+        spec = _args_spec(case["args"])
+        sa = obs.get("self_args")
+        if sa is None or not isinstance(sa[1], list) or sa[0] in ("set", "frozenset", "dict", "range", "complex"):
+            return "false (* self.args is not a list or tuple *)"
+        given = "VNone" if spec is None else _canon_coq(_canon(_build(spec)))
+        norm = f"pyl_eqb (py_norm_args {given}) {cf.lst([_canon_coq(e) for e in sa[1]])}"
         # the sample after Advance repeats the previous one, which is right only if Advance changes no public field
-        return f"timer_agree fixed {self._init_term(case)} {cf.lst(acts, sep=';\n    ')}"
+        return f"andb ({norm})\n    (timer_agree fixed {self._init_term(case)} {cf.lst(acts, sep=';\n    ')})"
 
     def model_term(self, case):
         return None
@@ -469,8 +728,11 @@ class C19(Prop):
         N = (lambda x: float(cf.frac(x))) if case.get("float") else F
         t0, tmo = N(case["t0"]), N(case["timeout"])
         auto = bool(case["auto"])
-        want_args = _args_expected(case["args"])
-        want_kw = case.get("kwargs") or {}
+        # the rule for `args` (see _expected_specs): None -> (), list/tuple -> its elements, anything else -> the object itself
+        aspec = _args_spec(case["args"])
+        want_args = [_canon(_build(x)) for x in _expected_specs(aspec)]
+        want_listlike = aspec is not None and aspec[0] in LISTLIKE
+        want_kw = {k: _canon(_build(v)) for k, v in (_kwargs_spec(case) or {}).items()}
         now = t0
         e = t0 + tmo          # pending expiry, None = nothing pending
         maybe = False         # restart() of an expired one-shot timer: C19 does not say whether it re-arms
@@ -521,7 +783,12 @@ class C19(Prop):
                     elif now != e:
                         msgs.append(f"timer-fires-at-wrong-instant: callback at {now}, the pending expiry is {e}")
                     if f["args"] != want_args or f["kwargs"] != want_kw:
-                        msgs.append(f"timer-wrong-args: callback got args={f['args']} kwargs={f['kwargs']}, expected {want_args} {want_kw}")
+                        msgs.append(f"timer-wrong-args: callback got args={f['args']} kwargs={f['kwargs']}, expected {want_args} {want_kw} "
+                                    f"(args given: {aspec}; None -> no argument, a list/tuple -> its elements, anything else -> ONE "
+                                    f"argument, the object itself)")
+                    elif not all((idn[1] if want_listlike else idn[0]) for idn in f.get("ident", [])):
+                        msgs.append(f"timer-wrong-args: the callback received equal but not the given objects (identity {f['ident']}) "
+                                    f"for args {aspec}")
                     last_fire = now
                     maybe = False
                     e = now + period if auto else None
@@ -630,7 +897,7 @@ class C19(Prop):
 
     def describe(self, case, obs):
         keys = ["timer", "timer:float-mode(monitor only)" if case.get("float") else "timer:dyadic(model+monitor)",
-                "timer:" + ("auto-restart" if case["auto"] else "one-shot"), "timer:args=" + case["args"]["kind"],
+                "timer:" + ("auto-restart" if case["auto"] else "one-shot"), "timer:args=" + _args_class(case["args"]),
                 "timer:drivers=%d" % len(case["drivers"])]
         if case["pre"]:
             keys.append("timer:drivers-created-before-timer")
